@@ -122,5 +122,50 @@ let () = iter_lines (fun line ->
              if int_of_z k.K_addrparse.v__oob <> 0 then "OOB" else
              if int_of_z v = 0 then "F" else if int_of_z v < 0 then "E" else "S " ^ hexz (take (int_of_z s.C_addrparse.v_addr__len - 1) s.C_addrparse.a_addr__s)
          | _ -> "STUCK")
+    | ["clean"; sp; r; u1; u2] ->
+        (* main() of qmail-clean.c as generated, on one request (the request + NUL, then end of input); unlink answers o = removed,
+           n = ENOENT, f = EIO; same output format as the model driver: "<hex status bytes> <path,path|->" *)
+        let res = List.map (fun u -> z_of_int (match u with "o" -> 0 | "n" -> 2 | _ -> 5)) [u1; u2] in
+        (match C_clean_main.run f (zl r @ [Z0]) (z_of_int 0) [] (z_of_int 0) [] (List.init 40 (fun _ -> Z0)) (z_of_int (int_of_string sp)) res [] (z_of_int 0) with
+         | Some (v, s) when int_of_z v = 0 ->
+             let rec split cur acc = function
+               | [] -> List.rev acc
+               | x :: rest -> if int_of_z x = 0 then split [] (List.rev cur :: acc) rest else split (x :: cur) acc rest in
+             let paths = split [] [] s.C_clean_main.a_unlink__log in
+             hexz s.C_clean_main.a_subfdoutsmall__out ^ " " ^ (if paths = [] then "-" else String.concat "," (List.map hexz paths))
+         | Some (v, _) -> "EXIT " ^ string_of_int (int_of_z v)
+         | None -> "STUCK")
+    | ["out"; cap; scr; ops] ->
+        (* substdo.c as generated (substdio_put, substdio_bput, substdio_flush, substdio_putflush over allwrite; op = the scripted write
+           oracle), in the protocol of harness/h_substdio.c: "<ok> <hex accepted> <bytes waiting>"; " OOB" when a checked variant saw an access
+           outside the buffer or the data *)
+        let split s = if s = "-" then [] else String.split_on_char ',' s in
+        let num s = int_of_string (String.sub s 1 (String.length s - 1)) in
+        let hexarg s = let h = String.sub s 1 (String.length s - 1) in zl (if h = "" then "-" else h) in
+        let script = List.map (fun t -> z_of_int (if t.[0] = 'i' then -1 else if t.[0] = 'e' then -2 else num t)) (split scr) in
+        let c = int_of_string cap in
+        let zi = z_of_int in
+        let rec go (x, p, n, acc, oob) = function
+          | [] -> (true, p, acc, oob)
+          | o :: rest ->
+              let d = if o.[0] = 'f' then [] else hexarg o in
+              let len = zi (List.length d) in
+              let r = match o.[0] with
+                | 'p' -> (match C_substdio_put.run f x (zi c) p (zi 1) d (zi 0) len script acc n, K_substdio_put.run f x (zi c) p (zi 1) d (zi 0) len script acc n with
+                          | Some (v, t), Some (_, k) -> Some (v, t.C_substdio_put.a_s__x, t.C_substdio_put.v_s__p, t.C_substdio_put.v_wr__n, t.C_substdio_put.a_wr__out, k.K_substdio_put.v__oob) | _ -> None)
+                | 'b' -> (match C_substdio_bput.run f x (zi c) p (zi 1) d (zi 0) len script acc n, K_substdio_bput.run f x (zi c) p (zi 1) d (zi 0) len script acc n with
+                          | Some (v, t), Some (_, k) -> Some (v, t.C_substdio_bput.a_s__x, t.C_substdio_bput.v_s__p, t.C_substdio_bput.v_wr__n, t.C_substdio_bput.a_wr__out, k.K_substdio_bput.v__oob) | _ -> None)
+                | 'f' -> (match C_substdio_flush.run f x p (zi 1) script acc n, K_substdio_flush.run f x p (zi 1) script acc n with
+                          | Some (v, t), Some (_, k) -> Some (v, t.C_substdio_flush.a_s__x, t.C_substdio_flush.v_s__p, t.C_substdio_flush.v_wr__n, t.C_substdio_flush.a_wr__out, k.K_substdio_flush.v__oob) | _ -> None)
+                | _ -> (match C_substdio_putflush.run f x p (zi 1) d (zi 0) len script acc n, K_substdio_putflush.run f x p (zi 1) d (zi 0) len script acc n with
+                          | Some (v, t), Some (_, k) -> Some (v, t.C_substdio_putflush.a_s__x, t.C_substdio_putflush.v_s__p, t.C_substdio_putflush.v_wr__n, t.C_substdio_putflush.a_wr__out, k.K_substdio_putflush.v__oob) | _ -> None) in
+              (match r with
+               | None -> (false, zi (-99), acc, true)
+               | Some (v, x', p', n', acc', k) ->
+                   let oob' = oob || int_of_z k <> 0 in
+                   if int_of_z v <> 0 then (false, p', acc', oob') else go (x', p', n', acc', oob') rest) in
+        let (ok, p, acc, oob) = go (List.init c (fun _ -> Z0), zi 0, zi 0, [], false) (split ops) in
+        if int_of_z p = -99 then "STUCK" else
+        (if ok then "1" else "0") ^ " " ^ hexz acc ^ " " ^ string_of_int (int_of_z p) ^ (if oob then " OOB" else "")
     | _ -> "?" in
   print_string out; print_char '\n')
